@@ -49,7 +49,7 @@ def run(ctx):
     # straight line; every emitted character must be alphabet[RFC 4648 sextet] or '=' in the RFC's
     # positions.  Any restructuring of the tail handling is accepted as long as this holds.
     size_p = params_of(enc)[1]
-    for n in range(0, 8):
+    for n in range(0, 33 if ctx.tier == 'thorough' else 8):
         out = []
         I.notes = []
         try:
